@@ -89,3 +89,93 @@ class ScriptedOptimizer:
         if return_fitted_val:
             return xt, tl.astensor(np.float64(val))
         return xt
+
+
+# ----------------------------------------------------------------------------- sampler seams
+class _Dist:
+    def __init__(self, owner, kind, params, real):
+        self.owner, self.kind, self.params, self.real = owner, kind, params, real
+        self.index = owner.created
+        owner.created += 1
+
+    def log_prob(self, value):
+        return self.real.log_prob(value)
+
+    def __getattr__(self, name):
+        return getattr(self.real, name)
+
+    def sample(self, sample_shape=()):
+        return self.owner._sample(self, tuple(sample_shape))
+
+
+class SamplerSeam:
+    """Replaces the current backend's poisson_dist / normal_dist factories (attribute patch on the backend *class*, inside the harness process only).
+
+    mode 'record:rate|loc|scale': sample(shape) returns the distribution's own parameter broadcast to shape + param.shape, so stitched pseudo-data
+    reveal which parameter reached which data slot.
+    mode 'enumerate': sample((N,)) returns a deterministic multiset whose empirical law is the exact Poisson law quantised to 1/N; several
+    one-component distributions created by one make_pdf are laid out as a product grid (axis sizes in `grid`)."""
+
+    def __init__(self, mode, grid=None):
+        self.mode, self.grid = mode, grid
+        self.created = 0
+        self.log = []
+
+    def __enter__(self):
+        import pyhf
+
+        self.cls = type(pyhf.tensorlib)
+        self.orig = (self.cls.poisson_dist, self.cls.normal_dist)
+        seam = self
+
+        def poisson_dist(self_, rate):
+            return _Dist(seam, "poisson", (rate,), seam.orig[0](self_, rate))
+
+        def normal_dist(self_, mu, sigma):
+            return _Dist(seam, "normal", (mu, sigma), seam.orig[1](self_, mu, sigma))
+
+        self.cls.poisson_dist, self.cls.normal_dist = poisson_dist, normal_dist
+        return self
+
+    def __exit__(self, *a):
+        self.cls.poisson_dist, self.cls.normal_dist = self.orig
+
+    def _sample(self, d, shape):
+        import pyhf
+
+        tl = pyhf.tensorlib
+        p = [np.asarray(tl.tolist(x), dtype=np.float64) for x in d.params]
+        self.log.append(dict(kind=d.kind, index=d.index, shape=shape, params=[x.tolist() for x in p]))
+        if self.mode.startswith("record"):
+            which = self.mode.split(":")[1]
+            if d.kind == "poisson":
+                src = p[0]
+            else:
+                src = p[1] if which == "scale" else p[0]
+            out = np.broadcast_to(src, shape + src.shape).copy()
+            return tl.astensor(out)
+        # enumerate: one-component poisson distributions on a product grid
+        assert d.kind == "poisson" and p[0].size == 1 and len(shape) == 1, (d.kind, p[0].shape, shape)
+        n_tot = shape[0]
+        axis = d.index % len(self.grid)
+        assert int(np.prod(self.grid)) == n_tot, (self.grid, n_tot)
+        vals = enumerate_poisson(float(p[0].ravel()[0]), self.grid[axis])
+        rep_inner = int(np.prod(self.grid[axis + 1:]))
+        rep_outer = int(np.prod(self.grid[:axis]))
+        col = np.tile(np.repeat(vals, rep_inner), rep_outer)
+        return tl.astensor(col.reshape((n_tot,) + p[0].shape))
+
+
+def enumerate_poisson(lam, n):
+    """n values whose empirical distribution is Pois(lam) quantised to 1/n (largest-remainder rounding), ascending."""
+    from scipy.stats import poisson as sp
+
+    hi = int(lam + 12 * np.sqrt(lam + 1) + 12)
+    ks = np.arange(0, hi + 1)
+    pm = sp.pmf(ks, lam)
+    raw = pm * n
+    cnt = np.floor(raw).astype(int)
+    rem = n - cnt.sum()
+    order = np.argsort(-(raw - cnt), kind="stable")
+    cnt[order[:rem]] += 1
+    return np.repeat(ks.astype(np.float64), cnt)
